@@ -43,6 +43,20 @@ def write_conc_input(chk):
     # package-level variables written outside init (go/ast): shared by all concurrent calls
     pw = ex["package_writes"]
     chk.extra["package_writes"] = pw
+    # methods of the sm4 types that write through their receiver (go/ast): the object is shared
+    rw = ex.get("receiver_writes", [])
+    chk.extra["receiver_writes"] = rw
+
+    def rw_kinds(w):
+        f = w["func"].lower()
+        if "seal" in f:
+            return {"seal"}
+        if "open" in f:
+            return {"open"}
+        if "crypt" in f and "gcm" not in w["type"].lower():
+            return {"block"}
+        return {"seal", "open", "block"} if "gcm" not in w["type"].lower() else {"seal", "open"}
+    rw_by_kind = set(k for w in rw for k in rw_kinds(w))
     pw_sm4 = any(w["pkg"] == "sm4" for w in pw)
     pw_sm2 = any(w["pkg"] != "sm4" for w in pw)
     for kind, fname, rt, ctxs in (("seal", "gcm_amd64.s", "sealAsm", ac.ctx_gcm(vec, False)),
@@ -55,6 +69,8 @@ def write_conc_input(chk):
         if kind in ("seal", "open") and not ex[kind + "_scratch_local"]:
             lm["temp"] = "obj"          # scratch reachable from the shared object / a package variable
         fps[kind] = footprint(res, lm)
+        if kind in rw_by_kind and ("w", "obj") not in fps[kind]:
+            fps[kind] = fps[kind] + [("w", "obj")]
         if pw_sm4:
             fps[kind] = [("r", "pkg")] + fps[kind] + [("w", "pkg")]
     # Go-level calls (sign / verify / derive): read shared keys and package-level constants, write
@@ -188,6 +204,9 @@ def run(tier):
             raise core.Infra("MC_Conc failed:\n" + core._tail(r["out"]))
         pw = chk.extra.get("package_writes") or []
         suffix = (".package_state_written." + pw[0]["pkg"].replace("/", "_") + "." + pw[0]["var"]) if pw else ""
+        rw = chk.extra.get("receiver_writes") or []
+        if rw and not pw:
+            suffix = ".object_written_by_method.%s.%s" % (rw[0]["type"], rw[0]["func"])
         chk.add_failure("conc.footprint_model.%s%s" % (m.group(1), suffix),
                         "interleaving model over the extracted footprints violates %s" % m.group(1),
                         dict(commands=[], footprints=chk.extra.get("footprints"), invariant=m.group(1),
